@@ -277,7 +277,7 @@ type vTailBytes struct {
 }
 type vTuple []val
 type vErr struct{ kind, detail string } // reader-error | nil | named error | ternary
-type vMake struct{ size val }
+type vMake struct{ size, capv val }
 type vOpaque struct{ why string }
 type vMethodVal struct{ sel *ast.SelectorExpr }
 
@@ -520,6 +520,16 @@ func (w *walker) assign(s *ast.AssignStmt) {
 							cnt = sz.P
 						case vRead:
 							cnt = sz.Op.Field
+						case vConst:
+							// make([]T, 0, p.Count): an empty list with room for Count entries, filled by append
+							if sz.V != nil && constant.Sign(sz.V) == 0 {
+								switch cp := mk.capv.(type) {
+								case vPath:
+									cnt = cp.P
+								case vRead:
+									cnt = cp.Op.Field
+								}
+							}
 						}
 						if !cnt.IsZero() {
 							lp := Path{Root: &Root{Name: "local:" + id.Name}}
@@ -530,6 +540,13 @@ func (w *walker) assign(s *ast.AssignStmt) {
 							w.env[obj] = vPath{P: lp}
 							continue
 						}
+					}
+				}
+				// dests = append(dests, <value read>) on such a local list: one more element
+				if ap, isAp := v.(vAppend); isAp && !w.encode {
+					if cur, isPath := w.env[obj].(vPath); isPath && cur.P.Root != nil && strings.HasPrefix(cur.P.Root.Name, "local:") && len(cur.P.Elems) == 0 && ap.list.Equal(cur.P) {
+						w.store(cur.P.extend(Elem{Each: true, Index: -1}), ap.elem, s.Rhs[i], s.Pos())
+						continue
 					}
 				}
 				// append(list, x) where list is a local alias is not interpreted
@@ -756,6 +773,9 @@ func (w *walker) forStmt(s *ast.ForStmt) {
 	if w.countDownLoop(s) {
 		return
 	}
+	if w.appendUntilLoop(s) {
+		return
+	}
 	var idx types.Object
 	if as, ok := s.Init.(*ast.AssignStmt); ok && len(as.Lhs) == 1 && len(as.Rhs) == 1 {
 		if id, ok := as.Lhs[0].(*ast.Ident); ok {
@@ -799,6 +819,59 @@ func (w *walker) forStmt(s *ast.ForStmt) {
 	w.block(s.Body.List)
 	w.ops = save
 	w.finishLoop(loop)
+}
+
+// appendUntilLoop handles `for len(list) < n { list = append(list, <read>) }` on a local list made empty with room for n
+// entries (n the count field it was made for): n iterations, one element each.
+func (w *walker) appendUntilLoop(s *ast.ForStmt) bool {
+	if s.Init != nil || s.Post != nil || w.encode {
+		return false
+	}
+	be, ok := s.Cond.(*ast.BinaryExpr)
+	if !ok || be.Op != token.LSS {
+		return false
+	}
+	lc, ok := be.X.(*ast.CallExpr)
+	if !ok || len(lc.Args) != 1 {
+		return false
+	}
+	if id, isID := lc.Fun.(*ast.Ident); !isID || id.Name != "len" {
+		return false
+	}
+	lid, ok := lc.Args[0].(*ast.Ident)
+	if !ok {
+		return false
+	}
+	lobj := w.info().Uses[lid]
+	lp, ok := w.env[lobj].(vPath)
+	if !ok || lp.P.Root == nil || !strings.HasPrefix(lp.P.Root.Name, "local:") {
+		return false
+	}
+	cnt, made := w.made[lp.P.String()]
+	if !made {
+		return false
+	}
+	loop := &Op{Kind: LOOP, Pos: s.Pos()}
+	if !w.loopBound(loop, be.Y) || !loop.Count.Equal(cnt) {
+		return false
+	}
+	// the body: exactly `list = append(list, X)`
+	if len(s.Body.List) != 1 {
+		return false
+	}
+	as, ok := s.Body.List[0].(*ast.AssignStmt)
+	if !ok || len(as.Lhs) != 1 || len(as.Rhs) != 1 {
+		return false
+	}
+	if id, isID := as.Lhs[0].(*ast.Ident); !isID || w.info().Uses[id] != lobj {
+		return false
+	}
+	save := w.ops
+	w.ops = &loop.Body
+	w.block(s.Body.List)
+	w.ops = save
+	w.finishLoop(loop)
+	return true
 }
 
 // loopBound records the iteration count of a loop: a receiver field, a local that holds the value just read into one,
@@ -1303,7 +1376,11 @@ func (w *walker) call(e *ast.CallExpr) val {
 						}
 					}
 				}
-				return vMake{size: sz}
+				var cp val
+				if len(e.Args) > 2 {
+					cp = w.eval(e.Args[2])
+				}
+				return vMake{size: sz, capv: cp}
 			case "append":
 				if len(e.Args) == 2 && !e.Ellipsis.IsValid() {
 					if p, ok := w.eval(e.Args[0]).(vPath); ok {
